@@ -28,7 +28,10 @@ STM = ["a = 1 <= 2", "b = 3 >= 2 > 1", "c = 1 << 2", "d = 8 >> 1 >> 1", "e = 1 <
        "if a:\n    pass\nelif b:\n    print('x')\nelse:\n    print(None)", "w = lambda v: v + 1",
        "x = [y * 2 for y in range(2) if y]", "y = a if b else c", "z = f'{a}b'", "v = 1 | 2 ^ 3 & 4", "t2 = a @ b",
        "u2 = +1", "lo = 0 < a < 5 < b", "k2 = False or 0", "s2 = '1'", "e2 = a is b", "mixed = 1 == 1.0 == True",
-       "import random, math as m2"]
+       "import random, math as m2",
+       # node lists of CPython's tree that hold None or plain strings next to nodes
+       "def kw(*, a, b=2):\n    return a", "cfg = {**o, 'k': 3, 'x': 1}", "def gl():\n    global a, b\n    a = 2 + 1",
+       "def va(*args, c=1.0, **kw):\n    return len(args)", "sl = n[1:][::2]"]
 PYOPS = {'==': ast.Eq, '!=': ast.NotEq, '<': ast.Lt, '<=': ast.LtE, '>': ast.Gt, '>=': ast.GtE, 'is': ast.Is,
          'is not': ast.IsNot, 'in': ast.In, 'not in': ast.NotIn, 'and': ast.And, 'or': ast.Or,
          '+': ast.Add, '-': ast.Sub, '*': ast.Mult, '/': ast.Div, '//': ast.FloorDiv, '%': ast.Mod, '**': ast.Pow,
